@@ -78,15 +78,165 @@ let cmd_walkey line =
      | Some k -> show_parse (parse_wal_key k))
   | _ -> "badcase"
 
+
+(* ---------- engine (C01..C16): same case lines as harness/wh `engine` ---------- *)
+let parse_topic (tok : string) : topic =
+  if String.length tok > 1 && tok.[0] = 'L' then
+    let n = int_of_string (String.sub tok 1 (String.length tok - 1)) in
+    { t_id = n_of_int (100000 + n); t_nlen = n_of_int n }
+  else if String.length tok > 1 && tok.[0] = 't' then
+    { t_id = n_of_int (int_of_string (String.sub tok 1 (String.length tok - 1))); t_nlen = n_of_int (String.length tok) }
+  else failwith ("bad topic " ^ tok)
+
+let show_out (o : out) : string =
+  if o.o_len = N0 then "e:_:0:0"
+  else Printf.sprintf "e:%s:%s:%s" (dec_of_n o.o_pid) (dec_of_n o.o_skip) (dec_of_n o.o_len)
+
+let show_result (r : result) : string =
+  match r with
+  | ROk -> "ok"
+  | RErr EInvalidInput -> "err:InvalidInput"
+  | RErr EInvalidData -> "err:InvalidData"
+  | RErr EWouldBlock -> "err:WouldBlock"
+  | RErr EOther -> "err:Other"
+  | RPanic -> "panic"
+  | RNone -> "none"
+  | REntry o -> show_out o
+  | REntries os -> "[" ^ String.concat ";" (List.map show_out os) ^ "]"
+  | RNum n -> "n:" ^ dec_of_n n
+
+let eng_state = ref init
+let eng_env = ref { v_cfg = real_cfg; v_mode = Strict; v_backend = Fd }
+
+let starts_with p s = String.length s >= String.length p && String.sub s 0 (String.length p) = p
+let after p s = String.sub s (String.length p) (String.length s - String.length p)
+
+let parse_items (s : string) : entry list =
+  if s = "-" then [] else
+  List.map (fun it -> match String.split_on_char ':' it with
+    | [p; l] -> { e_pid = n_of_dec p; e_len = n_of_dec l }
+    | _ -> failwith "bad item") (String.split_on_char ',' s)
+
+let cmd_engine line =
+  match split_ws line with
+  | "CASE" :: _ :: kvs ->
+    let cfg = ref real_cfg and mode = ref Strict and be = ref Fd in
+    List.iter (fun kv ->
+      if starts_with "mode=alo:" kv then mode := ALO (n_of_dec (after "mode=alo:" kv))
+      else if kv = "mode=strict" then mode := Strict
+      else if kv = "backend=mmap" then be := Mmap
+      else if kv = "backend=fd" then be := Fd
+      else if kv = "geom=small" then cfg := small_cfg
+      else if kv = "geom=real" then cfg := real_cfg
+      else ()) kvs;
+    eng_env := { v_cfg = !cfg; v_mode = !mode; v_backend = !be };
+    eng_state := init;
+    "ok"
+  | toks ->
+    let o, tid = match toks with
+      | ["A"; t; pid; len] -> let t = parse_topic t in OAppend (t, { e_pid = n_of_dec pid; e_len = n_of_dec len }), Some t.t_id
+      | ["B"; t; items] -> let t = parse_topic t in OBatch (t, parse_items items), Some t.t_id
+      | ["BN"; t; p0; n; len] ->
+        let t = parse_topic t in
+        let p0 = int_of_string p0 and n = int_of_string n in
+        OBatch (t, List.init n (fun k -> { e_pid = n_of_int (p0 + k); e_len = n_of_dec len })), Some t.t_id
+      | ["R"; t; ck] -> let t = parse_topic t in ORead (t, ck = "1"), Some t.t_id
+      | ["BR"; t; budget; ck; start] ->
+        let t = parse_topic t in
+        let b = if budget = "max" then n_of_dec "18446744073709551615" else n_of_dec budget in
+        OBatchRead (t, b, ck = "1", (if start = "-" then None else Some (n_of_dec start))), Some t.t_id
+      | ["C"; t] -> let t = parse_topic t in OCount t, Some t.t_id
+      | ["REOPEN"] | ["RESTART"] -> OReopen, None
+      | _ -> failwith ("bad engine line: " ^ line) in
+    let pre = match tid with Some t -> unmodelled !eng_state t | None -> false in
+    let (s', r) = step !eng_env !eng_state o in
+    eng_state := s';
+    let post = match tid with Some t -> unmodelled s' t | None -> any_unmodelled s' in
+    (if pre || post then "?" else "") ^ show_result r
+
+
+(* ---------- acceptors over implementation traces ----------
+   input lines: "<engine case line> => <implementation result line>"; one output line per
+   CASE: "<case id> c01=<ok|REJECT> c03=.. c15=.. c02b=.. c02c=.. c06alo=.." *)
+let parse_out_tok (tok : string) : out =
+  match String.split_on_char ':' tok with
+  | "e" :: pid :: skip :: len :: _ ->
+    let p = if pid = "_" then N0 else if pid = "X" then n_of_dec "18446744073709551615" else n_of_dec pid in
+    { o_pid = p; o_skip = n_of_dec skip; o_len = n_of_dec len }
+  | _ -> failwith ("bad out " ^ tok)
+
+let parse_result (s : string) : result =
+  if s = "ok" then ROk
+  else if s = "none" then RNone
+  else if s = "panic" then RPanic
+  else if s = "err:InvalidInput" then RErr EInvalidInput
+  else if s = "err:InvalidData" then RErr EInvalidData
+  else if s = "err:WouldBlock" then RErr EWouldBlock
+  else if starts_with "err:" s then RErr EOther
+  else if starts_with "n:" s then RNum (n_of_dec (after "n:" s))
+  else if starts_with "e:" s then REntry (parse_out_tok s)
+  else if starts_with "[" s then
+    let inner = String.sub s 1 (String.length s - 2) in
+    if inner = "" then REntries [] else REntries (List.map parse_out_tok (String.split_on_char ';' inner))
+  else RPanic   (* died, noinstance, missing output: never acceptable *)
+
+let parse_op (line : string) : op option =
+  match split_ws line with
+  | ["A"; t; pid; len] -> Some (OAppend (parse_topic t, { e_pid = n_of_dec pid; e_len = n_of_dec len }))
+  | ["B"; t; items] -> Some (OBatch (parse_topic t, parse_items items))
+  | ["BN"; t; p0; n; len] ->
+    let p0 = int_of_string p0 and n = int_of_string n in
+    Some (OBatch (parse_topic t, List.init n (fun k -> { e_pid = n_of_int (p0 + k); e_len = n_of_dec len })))
+  | ["R"; t; ck] -> Some (ORead (parse_topic t, ck = "1"))
+  | ["BR"; t; budget; ck; start] ->
+    let b = if budget = "max" then n_of_dec "18446744073709551615" else n_of_dec budget in
+    Some (OBatchRead (parse_topic t, b, ck = "1", (if start = "-" then None else Some (n_of_dec start))))
+  | ["C"; t] -> Some (OCount (parse_topic t))
+  | ["REOPEN"] | ["RESTART"] -> Some OReopen
+  | _ -> None
+
+let split_arrow (line : string) : string * string =
+  let pat = " => " in
+  let n = String.length line and m = String.length pat in
+  let rec go i = if i + m > n then raise Not_found else if String.sub line i m = pat then i else go (i + 1) in
+  let i = go 0 in
+  (String.sub line 0 i, String.sub line (i + m) (n - i - m))
+
+let run_accept () =
+  let cur_id = ref "" and cur = ref [] and have = ref false in
+  let cap = real_cfg.c_max_entries in
+  let flush_case () =
+    if !have then begin
+      let tr = List.rev !cur in
+      let b x = if x then "ok" else "REJECT" in
+      Printf.printf "%s c01=%s c03=%s c15=%s c02b=%s c02c=%s c06alo=%s\n" !cur_id
+        (b (c01_ok tr)) (b (c03_ok cap tr)) (b (c15_ok tr)) (b (c02b_ok tr)) (b (c02c_ok tr)) (b (c06alo_ok tr))
+    end in
+  (try
+    while true do
+      let line = input_line stdin in
+      let (l, r) = try split_arrow line with Not_found -> (line, "") in
+      match split_ws l with
+      | "CASE" :: id :: _ -> flush_case (); cur_id := id; cur := []; have := true
+      | _ -> (match parse_op l with
+              | Some o -> cur := (o, parse_result r) :: !cur
+              | None -> ())
+    done
+  with End_of_file -> ());
+  flush_case ();
+  flush stdout
+
 let commands : (string * (string -> string)) list = [
   "sanitize", cmd_sanitize;
   "sanitize_v0", cmd_sanitize_v0;
   "accept_c14", cmd_accept_c14;
   "walkey", cmd_walkey;
+  "engine", cmd_engine;
 ]
 
 let () =
   let cmd = Sys.argv.(1) in
+  if cmd = "accept" then (run_accept (); exit 0);
   let f = try List.assoc cmd commands with Not_found -> (prerr_endline ("unknown command " ^ cmd); exit 2) in
   (try
     while true do
